@@ -27,7 +27,8 @@ func init() {
 }
 
 // children: operations that may kill the process (log.Fatalf) run in a re-exec'd child:
-//   harness _child <name> args...
+//
+//	harness _child <name> args...
 var children = map[string]func(args []string){}
 
 func runChild(name string, args ...string) (exit int, out string) {
@@ -97,6 +98,17 @@ func runC12(ctx *Ctx) error {
 	defer os.RemoveAll(root)
 	mids := []string{"ABCDEF123456", "../../x", "../x", "..", ".", "", "/etc/passwd-x", "/abs", "a/b", "a/../../../y", "..\\..\\w", "x\x00y", "\x00", "æøå", "....", "..a", "a..", ".hidden",
 		"sub/", "/", "//", "../in/dup", "../../decoy/victim", strings.Repeat("A", 250), strings.Repeat("B", 300), strings.Repeat("../", 40) + "z", "A B", "A\nB", "*", "~"}
+	// MIDs built around the package's own names (extension, folders, temporary-file affixes):
+	// special handling of those is where a validity check is most likely to be bypassed
+	// (seeded change C12-b let every MID ending in ".b2f" through)
+	for _, base := range []string{"../../x", "../x", "a/b", "/abs", "..", "x\x00y", "PLAIN"} {
+		for _, suf := range []string{mailbox.Ext, strings.ToUpper(mailbox.Ext), mailbox.Ext + mailbox.Ext, ".tmp", mailbox.Ext + ".tmp", "/" + mailbox.Ext} {
+			mids = append(mids, base+suf)
+		}
+		for _, pre := range []string{".", mailbox.DIR_INBOX, "../" + mailbox.DIR_OUTBOX + "/", mailbox.DIR_SENT + "/../../", "./"} {
+			mids = append(mids, pre+base)
+		}
+	}
 	n := ctx.N(120, 1500)
 	for i := 0; i < n; i++ {
 		switch r.Intn(4) {
